@@ -5,6 +5,11 @@ HERE = os.path.dirname(os.path.abspath(__file__))
 ALL = ["C%02d" % i for i in range(1, 19)]
 
 CHECKS = {
+ "C11": dict(
+   technique="TLA+ model XtTranscode of stream.rs model-checked with TLC; every case replayed on the real transcoder with scripted serde objects; error texts of planted failures validated by TLC against XtErrText",
+   text="TLC evaluates the model of the transcoder's error plumbing for every tree of up to 5 nodes and every fault plan (each step of the serializer or deserializer failing) and checks attribution; each case, with its predicted variant, error identities and exact step sequence, is replayed on the real generic transcoder. End to end, translations with a planted syntax error, an unrepresentable value at a random path, or a writer failing at every output byte are recorded and TLC checks the text rules.",
+   note="Trees are bounded (5 nodes, depth 2); the text rules compare xt with itself across targets and look for the injected writer message, not for hard-coded wording.",
+   design_ref="DESIGN.md 4.4, 6 (C11)"),
  "C10": dict(
    technique="TLA+ spec XtDetect; detection traces of xt's own output validated by TLC (Trace_XtDetect!T_Self)",
    text="xt's own JSON, YAML, MessagePack and TOML output for generated collection-rooted documents is fed back without a source format (slice and readers with several schedules); TLC validates the detection trace and requires the answer to be the format written and the translation to equal the explicit one; TOML only under the statement's side conditions, which are evaluated with independent readers.",
